@@ -24,23 +24,29 @@ import (
 )
 
 type step struct {
-	Op    string
-	T     int
-	K     string
-	X     string
-	Stale bool
-	Res   json.RawMessage
-	Own   bool
-	Ok    bool
-	Id    int
+	Op     string
+	T      int
+	K      string
+	X      string
+	Stale  bool
+	Res    json.RawMessage
+	Own    bool
+	Ok     bool
+	Id     int
 	Serial bool
 }
 type behaviour struct{ Ops []step }
 type behFile struct{ Behaviours []behaviour }
 
-func openStore(dir string) *store.ImmuStore {
-	o := store.DefaultOptions().WithSynced(false).WithMultiIndexing(true).WithMaxConcurrency(8).WithMaxTxEntries(8).WithMaxKeyLen(16).WithMaxValueLen(64).
+func openStore(dir string) *store.ImmuStore { return openStoreSynced(dir, 0) }
+
+// syncEvery > 0: a synced store with that sync period (transactions stay pre-committed, not yet committed, for a while)
+func openStoreSynced(dir string, syncEvery time.Duration) *store.ImmuStore {
+	o := store.DefaultOptions().WithSynced(syncEvery > 0).WithMultiIndexing(true).WithMaxConcurrency(8).WithMaxTxEntries(8).WithMaxKeyLen(16).WithMaxValueLen(64).
 		WithWriteBufferSize(1 << 14).WithLogger(logger.NewMemoryLoggerWithLevel(logger.LogError))
+	if syncEvery > 0 {
+		o.WithSyncFrequency(syncEvery)
+	}
 	// no spontaneous flushes: the reusable root only moves when the driver asks for it
 	o.WithIndexOptions(o.IndexOpts.WithFlushThld(1 << 20).WithSyncThld(1 << 20).WithFlushBufferSize(1 << 14).WithCacheSize(64).WithMaxBulkSize(1))
 	o.WithAHTOptions(o.AHTOpts.WithWriteBufferSize(1 << 14))
@@ -259,7 +265,14 @@ func concurrent(enc *json.Encoder, dir string, seed int64, runs int, res *vh.Res
 	keys := []string{"a1", "a2", "b1"}
 	for run := 0; run < runs; run++ {
 		d := filepath.Join(dir, fmt.Sprintf("c%d", run))
-		st := openStore(d)
+		// every third run on a synced store: validation happens while other transactions are pre-committed but not yet committed
+		var st *store.ImmuStore
+		if run%3 == 2 {
+			st = openStoreSynced(d, []time.Duration{5 * time.Millisecond, 20 * time.Millisecond}[(run/3)%2])
+			res.Count("concurrent-runs-on-a-synced-store", 1)
+		} else {
+			st = openStore(d)
+		}
 		ctx := context.Background()
 		var mu sync.Mutex
 		var events []map[string]interface{}
@@ -292,9 +305,26 @@ func concurrent(enc *json.Encoder, dir string, seed int64, runs int, res *vh.Res
 					wrote := map[string]bool{}
 					nops := 2 + rng.Intn(3)
 					failed := false
+					// every fourth read-write transaction reads through range fingerprints only (MarkPrefixScanned, what the SQL
+					// engine uses for scanned ranges): its read-set holds nothing else
+					fpOnly := rng.Intn(4) == 0
 					for o := 0; o < nops && !failed; o++ {
 						k := keys[rng.Intn(3)]
-						switch rng.Intn(3) {
+						op := rng.Intn(3)
+						if fpOnly && op != 2 {
+							op = 3
+						}
+						switch op {
+						case 3:
+							x := k[:1]
+							if err := tx.MarkPrefixScanned(ctx, store.KeyReaderSpec{Prefix: []byte(x)}); err != nil {
+								failed = true
+								break
+							}
+							// the snapshot the fingerprint was taken on is not newer than this
+							reads = append(reads, map[string]interface{}{"kind": "fp", "x": x, "hi": st.LastCommittedTxID()})
+							res.Count("fingerprint-reads", 1)
+							time.Sleep(time.Duration(200+rng.Intn(800)) * time.Microsecond)
 						case 0:
 							if !wrote[k] {
 								ref, err := tx.Get(ctx, []byte(k))
@@ -349,6 +379,9 @@ func concurrent(enc *json.Encoder, dir string, seed int64, runs int, res *vh.Res
 						}
 						logEv(map[string]interface{}{"ev": "Commit", "id": hdr.ID, "writes": writes, "reads": reads, "stale": stale})
 						res.Count("rw-committed", 1)
+						if fpOnly && len(reads) > 0 {
+							res.Count("rw-committed-with-fingerprint-reads-only", 1)
+						}
 					} else if errors.Is(err, store.ErrTxReadConflict) {
 						res.Count("rw-conflict", 1)
 					} else {
